@@ -61,6 +61,8 @@ func runC09(w *fw.Worker) {
 			c09NoWatcher(w, i, r)
 		case g%11 == 6:
 			c09NoVerifyMethod(w, i, r, g/11)
+		case g%13 == 5:
+			c09AfterMonitorExit(w, i, r)
 		default:
 			c09Walk(w, i, r, g)
 		}
@@ -648,4 +650,70 @@ func c09NoVerifyMethod(w *fw.Worker, i int, r *fw.Rand, g int) {
 	}
 	w.Distinct(fmt.Sprintf("noverify|%v|%v|%d", delay, suppress, next))
 	w.Count("walks_judged", 1)
+}
+
+// c09AfterMonitorExit: the delay is still in force when the monitor goroutine goes away (every watcher called Done, or
+// the Config context ended). An EnableVerification made then may fail or give up with its context, but it may not
+// report success unless Verify actually ran on the installed config and accepted it.
+func c09AfterMonitorExit(w *fw.Worker, i int, r *fw.Rand) {
+	how := []string{"all-done", "cancel"}[r.Intn(2)]
+	invalid := r.Chance(70)
+	desc := map[string]any{"mode": "enable-after-monitor-exit", "shutdown": how, "installed_config_invalid": invalid}
+	w.BeginDesc(i, fmt.Sprintf("%v", desc))
+	e, err := conc.Start(context.Background(), r.U64(), conc.Opts{NSrc: 2, Delay: true, Suppress: r.Bool()}, nil)
+	if err != nil {
+		w.Violation(i, "config-failed", err.Error(), desc)
+		return
+	}
+	defer e.Stop()
+	ctx := e.S.Ctx
+	l := e.RandLayer(r, 0, 0)
+	if invalid {
+		l.Set[0], l.NegA = true, true
+	}
+	if res, rerr := e.Report(ctx, 0, 1, l, true); res != conc.ResNil {
+		w.Violation(i, "update-rejected-while-verification-is-delayed", fmt.Sprintf("%v", rerr), desc)
+		return
+	}
+	if n := len(e.S.VerifyLog()); n != 0 {
+		w.Violation(i, "verify-before-enable", fmt.Sprintf("%d Verify calls before EnableVerification", n), desc)
+		return
+	}
+	if how == "cancel" {
+		e.S.Cancel()
+	} else {
+		for _, s := range e.Srcs {
+			if s != nil {
+				s.WA().Done(ctx)
+			}
+		}
+	}
+	select {
+	case <-dials.VerifMonitorDone(e.D):
+	case <-time.After(10 * time.Second):
+		w.Inconclusive(i, "monitor exit not observed")
+		return
+	}
+	for k := r.Range(1, 3); k > 0; k-- {
+		before := len(e.S.VerifyLog())
+		cur := e.D.View()
+		ectx, cancel := context.WithTimeout(context.Background(), 100*time.Millisecond)
+		cfg, _, eerr := e.D.EnableVerification(ectx)
+		cancel()
+		vl := e.S.VerifyLog()[before:]
+		w.Count("enable_calls_judged", 1)
+		w.Count("enable_calls_after_monitor_exit", 1)
+		if eerr != nil {
+			continue // refused, or gave up with its context
+		}
+		switch {
+		case invalid:
+			w.Violation(i, "enable-succeeded-on-invalid-config:after-monitor-exit", fmt.Sprintf("EnableVerification returned success (%d Verify calls) although the installed config %+v fails Verify", len(vl), conc.FPOf(cur)), desc)
+			return
+		case len(vl) == 0 || vl[len(vl)-1].Cfg != cur || cfg != cur:
+			w.Violation(i, "enable-did-not-verify-exactly-the-installed-config:after-monitor-exit", fmt.Sprintf("success with %d Verify calls after the monitor exited", len(vl)), desc)
+			return
+		}
+	}
+	w.Distinct(fmt.Sprintf("after-exit|%s|%v", how, invalid))
 }
